@@ -1,6 +1,7 @@
 //! Entry point: `vcheck <ID> --tier quick|thorough` or `vcheck <ID> --replay <file>`.
 mod c04;
 mod c05;
+mod c11;
 
 use vrt::Tier;
 
@@ -36,6 +37,7 @@ fn main() {
     match id.as_str() {
         "C04" => c04::main(&args),
         "C05" => c05::main(&args),
+        "C11" => c11::main(&args),
         "c05-child" => c05::child(&args),
         _ => usage(),
     }
